@@ -196,6 +196,12 @@ def step (st : St) (toks : List String) : St × String :=
       let r := cstep st.catc st.cat (.split p ch)
       ({ st with cat := r.1 }, okStr r.2 ++ "\t*")
     | _, _ => (st, "bad-op")
+  | "cat.iofail" :: _ =>
+    -- the wrapped operation runs with the next manifest append failing: whatever it is, it
+    -- reports an error and the catalog stays as it was (updateRegion logs to the manifest
+    -- before it touches the in-memory catalog)
+    (st, "err\terr")
+  | ["cat.rewrite"] => (st, "ok\tok")
   | ["cat.splitfail", _, _, _] =>
     -- a split whose child cannot be started on this store (no local replica): whatever the
     -- split key, the call fails and the parent is rolled back — the catalog is unchanged
